@@ -97,3 +97,7 @@ func (c *Channel) VerifExpireNow() bool {
 	c.expireSessions(time.Now())
 	return c.sessions[1].Session != nil
 }
+
+// VerifNewTimer exposes the constructor of the timer behind handshake
+// retransmission and rekey.
+func VerifNewTimer(fn func()) *Timer { return newTimer(fn) }
